@@ -26,6 +26,13 @@ PLAN = {
         "rule": "every small script cut / failed (fatal and transient I/O errors) at every body offset, malformed chunk framing at every chunk, then reads continue after the error; large random ones with boundary-biased fault offsets",
         "assumptions": ASSUME_X,
     },
+    "C03": {
+        "mc": [],
+        "families": [{"gen": ("tlc", {"name": "framing-table", "tla": "MC_Framing.tla", "cfg": "MC_Framing.cfg", "workers": 8}),
+                      "runner": "exchange", "trace": "Trace_Exchange"}],
+        "rule": "rows of the RFC 9112 6.3 decision table enumerated by TLC (method x status x Content-Length lists x Transfer-Encoding lists x trailing octets); each row is a real exchange whose delivered octets are judged",
+        "assumptions": ASSUME_X,
+    },
     "C19": {
         "mc": [MC_EXCHANGE],
         "families": [fam("x_small"), fam("x_large")],
